@@ -4,6 +4,15 @@
   HP-specific generated loops (loop_2, loop_3), the word-level finder for `back = true` without `do`, the
   backward extension `lcs(p[j-back:j], p[:i])` under a specification of the opaque `lcs`, one iteration of the
   greedy loop and the whole loop.
+
+  Proof style (robustness round 2): no lemma spells a condition, a clamp or an argument of the generated text.
+  Each `if` is resolved by `bhp_ifc` (first `if` of the goal, by unification, arms in either order, condition decided
+  by `omega` after normalising `Int.ofNat`/`UInt32` equalities), each clamp `if k > x { k = x }` / `min(k, x)` by
+  `bhp_val v` (replaced by the model's value `v`; `omega` shows both arms equal to `v`), slice bounds and the
+  arguments of the loop functions through congruence lemmas (`slice_okB`, `loop3_congrB`, `loop1_congrB`, …) whose
+  side conditions are again closed by `omega`.  `x ^ y` / `y ^ x` and `y & mask` / `mask & y` are normalised by
+  commutativity.  What remains visible: the order of the state tuple of a loop function (part of its type) and the
+  data flow (which value is stored where) — a change there is a change of the statement.
 -/
 import LzModel.Generated.CodeBHPParse
 import LzProofs.GenHPParse
@@ -27,6 +36,51 @@ def LcsSpec (lcs : Slice → Slice → Int) : Prop := ∀ p q : Slice, lcs p q =
 @[reducible] def setTB (s : Gen.backwardHashParser) (t : GSlice hashEntry) : Gen.backwardHashParser :=
   { s with hashDictionary := { s.hashDictionary with hash := { s.hashDictionary.hash with table := t } } }
 
+
+/-! ## shape-independent steps
+
+  The lemmas below never spell a condition or a clamp of the generated text.  `bhp_cond` decides an arithmetic
+  side condition in whatever spelling it comes (`a < b` / `b > a`, `¬(p ∧ q)` / `¬p ∨ ¬q`, `Int.ofNat`, `UInt32`
+  (dis)equalities through `toNat`); `bhp_ifc` resolves the FIRST `if` of the goal (found by unification, arms in
+  either order) when the context decides its condition; `bhp_val v` replaces the first `if … then a else b` of the
+  type of `v` by the model's value `v` (both arms are shown equal to `v` by `bhp_cond`) — this covers
+  `if k > x { k = x }`, `if x < k { k = x }`, `k = min(k, x)` (the builtin is translated to an `if`, the package's own
+  `min` to `LZ.Gen.min`) and a hoisted `x`. -/
+
+theorem ite_valB {α : Type} {c : Prop} [Decidable c] {a b : α} (v : α) (h1 : c → a = v) (h2 : ¬ c → b = v) :
+    (if c then a else b) = v := by
+  split
+  · exact h1 ‹_›
+  · exact h2 ‹_›
+
+/-- the same for a call of the package's `min` (`LZ.Gen.min`, rewritten to `min` by `gen_min`) -/
+theorem min_valB {a b : Int} (v : Int) (h : Min.min a b = v) : Min.min a b = v := h
+
+/-- decide an arithmetic condition of the generated text in any spelling -/
+macro "bhp_cond" : tactic =>
+  `(tactic| first
+    | omega
+    | (simp only [← UInt32.toNat_inj, Int.ofNat_eq_natCast, ne_eq]; first | done | omega))
+
+/-- resolve the first `if` of the goal (or of a hypothesis) whose condition the context decides -/
+syntax "bhp_ifc" (Lean.Parser.Tactic.location)? : tactic
+macro_rules
+  | `(tactic| bhp_ifc $[$loc]?) =>
+    `(tactic| first | rw [if_pos (by bhp_cond)] $[$loc]? | rw [if_neg (by bhp_cond)] $[$loc]?)
+
+/-- replace the first `if` of the type of `v` by the value `v` -/
+syntax "bhp_val" term:max (Lean.Parser.Tactic.location)? : tactic
+macro_rules
+  | `(tactic| bhp_val $v $[$loc]?) =>
+    `(tactic| first
+      | rw [ite_valB $v (by bhp_cond) (by bhp_cond)] $[$loc]?
+      | (simp only [LZ.GenProps.gen_min] $[$loc]?; rw [min_valB $v (by bhp_cond)] $[$loc]?))
+
+/-- the arguments of a slice expression in any spelling -/
+theorem slice_okB (s : Slice) {a b : Int} (i j : Nat) (ha : a = (i : Int)) (hb : b = (j : Int))
+    (hij : i ≤ j) (hj : j ≤ s.arr.length) :
+    Slice.slice s a b = Res.ok { arr := s.arr.drop i, len := j - i } := slice_okI s a b i j ha hb hij hj
+
 /-- loop_3 of `Parse` (`for j = i + 1; j < b; j++ { … }`) -/
 theorem loop3_eqB (grow : Nat → Nat → Nat) (lcs : Slice → Slice → Int) (b : Int) (x : UInt64) (_p : Slice) (h : UInt32) :
     ∀ (n fuel j : Nat) (a : Int) (s : Gen.backwardHashParser), a = (j : Int) → n = (b - a).toNat → n < fuel →
@@ -42,13 +96,19 @@ theorem loop3_eqB (grow : Nat → Nat → Nat) (lcs : Slice → Slice → Int) (
     intro fuel j a s ha hb hf _ c ht
     obtain ⟨f, rfl⟩ : ∃ f, fuel = f + 1 := ⟨fuel - 1, by omega⟩
     refine ⟨a, s.hashDictionary.hash.table, ht, rfl, ?_⟩
-    rw [backwardHashParser_Parse_loop_3, if_neg (by omega)]
+    rw [backwardHashParser_Parse_loop_3]
+    bhp_ifc
   | succ n ih =>
     intro fuel j a s ha hb hf hn c ht
     obtain ⟨f, rfl⟩ : ∃ f, fuel = f + 1 := ⟨fuel - 1, by omega⟩
     obtain ⟨y, t1, hy, hF, hset, ht1, hins⟩ := insert_step s.hashDictionary.hash _p c _ ht a j ha (by omega)
-    rw [backwardHashParser_Parse_loop_3, if_pos (by omega), hF]
+    rw [backwardHashParser_Parse_loop_3]
+    bhp_ifc
+    rw [hF]
     dsimp only
+    -- `y & s.mask` / `s.mask & y`
+    have hand : s.hashDictionary.hash.mask &&& y = y &&& s.hashDictionary.hash.mask := UInt64.and_comm _ _
+    try simp only [hand]
     rw [hset, bind_ok]
     obtain ⟨jj, t2, ht2, hr, hl⟩ := ih f (j + 1) (a + 1) (setTB s t1) (by omega) (by omega) (by omega) (by omega) c ht1
     refine ⟨jj, t2, ht2, ?_, hl⟩
@@ -79,24 +139,30 @@ theorem loop2_eqB (grow : Nat → Nat → Nat) (lcs : Slice → Slice → Int) (
     have hq' : q.len ≤ q.arr.length := hq
     rw [backwardHashParser_Parse_loop_2]
     by_cases h8 : 8 ≤ q.len
-    · rw [if_pos (by show (q.len : Int) ≥ 8; omega), gen_le64 r hr, gen_le64 q hq,
+    · bhp_ifc
+      rw [gen_le64 r hr, gen_le64 q hq,
         BytesW.le64_eq_some _ (by omega), BytesW.le64_eq_some _ (by omega)]
-      simp only [ofOpt, bind_ok, tz_shr]
+      have hxc : BytesW.getLE64 q.data ^^^ BytesW.getLE64 r.data = BytesW.getLE64 r.data ^^^ BytesW.getLE64 q.data :=
+        UInt64.xor_comm _ _
+      simp only [ofOpt, bind_ok, tz_shr, hxc]
       rw [matchExtLoop_ge _ _ _ (by omega) (by omega)]
       generalize BytesW.tz64 (BytesW.getLE64 r.data ^^^ BytesW.getLE64 q.data) >>> 3 = b
       by_cases hb : b < 8
-      · rw [if_pos (by omega), if_pos hb]
+      · rw [if_pos hb]
+        bhp_ifc
         exact ⟨1, kN + b, r, q, by rw [hk]; rfl, hr, hq, Or.inl ⟨rfl, rfl⟩⟩
-      · rw [if_neg (by omega), if_neg hb,
-          slice_okI r 8 (Int.ofNat r.len) 8 r.len rfl rfl (by omega) hr', bind_ok,
-          slice_okI q 8 (Int.ofNat q.len) 8 q.len rfl rfl (by omega) hq', bind_ok]
+      · rw [if_neg hb]
+        bhp_ifc
+        rw [slice_okB r 8 r.len (by bhp_cond) (by bhp_cond) (by omega) hr', bind_ok,
+          slice_okB q 8 q.len (by bhp_cond) (by bhp_cond) (by omega) hq', bind_ok]
         obtain ⟨e, kN', r', q', hl, h1, h2, h3⟩ := ih f (kN + b) (k + (b : Int))
           { arr := r.arr.drop 8, len := r.len - 8 } { arr := q.arr.drop 8, len := q.len - 8 }
           (by show q.len - 8 < _; omega) (by omega) (by rw [hk]; rfl) (swf_drop _ _ _ hr') (swf_drop _ _ _ hq')
           (by show q.len - 8 ≤ r.len - 8; omega)
         rw [data_drop', data_drop'] at h3
         exact ⟨e, kN', r', q', hl, h1, h2, h3⟩
-    · rw [if_neg (by show ¬ (q.len : Int) ≥ 8; omega), matchExtLoop_lt _ _ _ (by omega)]
+    · bhp_ifc
+      rw [matchExtLoop_lt _ _ _ (by omega)]
       exact ⟨0, kN, r, q, by rw [hk], hr, hq, Or.inr ⟨by decide, rfl⟩⟩
 
 /-! ## the word-level finder for `back = true` in a form without `do` -/
@@ -151,7 +217,9 @@ theorem backExt_le (p : List Byte) (i li j : Nat) : backExt p i li j ≤ Min.min
   · omega
 
 /-- `if back := i - litIndex; back > 0 { if back > j { back = j }; m := lcs(p[j-back:j], p[:i]); i -= m; k += m }`
-    of bhp.go under the specification of `lcs`: no panic, `m` is the model's `backExt` -/
+    of bhp.go under the specification of `lcs`: no panic, `m` is the model's `backExt`.
+    A closed statement about ONE spelling of the block (it does not mention the generated code); kept for older
+    users, no longer used by `loop1_stepB`, which evaluates the block as it comes (`lcs_backExtB`). -/
 theorem gen_backExt (lcs : Slice → Slice → Int) (hlcs : LcsSpec lcs) (A : List UInt8) (L i li j : Nat)
     (ia lia kI : Int) (hia : ia = (i : Int)) (hlia : lia = (li : Int)) (hj : j < i) (hi : i ≤ L)
     (hLA : L ≤ A.length) (hli : li ≤ i) :
@@ -190,6 +258,60 @@ theorem gen_backExt (lcs : Slice → Slice → Int) (hlcs : LcsSpec lcs) (A : Li
 
 /-! ## one iteration of the greedy loop -/
 
+/-- `_getLE64(_p[a:])` (`gen_load_ok`) with the two slice bounds in any spelling -/
+theorem gen_load_okB (_p : Slice) (h : SWF _p) (i : Nat) (hi : i + 8 ≤ _p.len) :
+    ∃ y, (BytesW.sliceFrom _p.data i).bind BytesW.le64 = some y ∧
+      ∀ {β : Type} (a b : Int) (ha : a = (i : Int)) (hb : b = (_p.len : Int)) (F : UInt64 → Res β),
+        Res.bind (Slice.slice _p a b) (fun t => Res.bind (Gen._getLE64 t) F) = F y := by
+  obtain ⟨y, hy, hF⟩ := gen_load_ok _p h (i : Int) i rfl hi
+  refine ⟨y, hy, ?_⟩
+  intro β a b ha hb F
+  subst ha hb
+  exact hF F
+
+/-- the tail of the match extension as a `min` -/
+theorem tail_valB (r q : List Byte) (kN : Nat) (hq : q.length > 0) :
+    BytesW.matchExtTail r q kN = kN + Min.min (BytesW.tz64 (BytesW.getLE64 r ^^^ BytesW.getLE64 q) >>> 3) q.length := by
+  unfold BytesW.matchExtTail
+  rw [if_pos hq]
+  simp only []
+  split <;> omega
+
+/-- the two slices handed to `lcs` and its value under `LcsSpec` -/
+theorem lcs_backExtB (lcs : Slice → Slice → Int) (hlcs : LcsSpec lcs) (A : List UInt8) (L i li j : Nat)
+    (hb : i > li) (hj : j < i) (hi : i ≤ L) :
+    lcs { arr := A.drop (j - Min.min (i - li) j), len := j - (j - Min.min (i - li) j) } { arr := A.drop 0, len := i - 0 } =
+      ((backExt (A.take L) i li j : Nat) : Int) := by
+  rw [hlcs]
+  unfold backExt
+  rw [if_pos hb, data_drop, data_mk]
+  show ((lcsLen _ _ : Nat) : Int) = ((lcsLen (((A.take L).take j).drop (j - Min.min (i - li) j)) ((A.take L).take i) : Nat) : Int)
+  rw [List.take_take, List.take_take, Nat.min_eq_left (show j ≤ L by omega), Nat.min_eq_left (show i ≤ L by omega)]
+  simp only [List.drop_zero, Nat.sub_zero]
+
+theorem loop3_congrB (grow : Nat → Nat → Nat) (lcs : Slice → Slice → Int) {b b' : Int} (x : UInt64) (_p : Slice)
+    (h : UInt32) (fuel : Nat) {j j' : Int} (s : Gen.backwardHashParser) (hb : b' = b) (hj : j' = j) :
+    backwardHashParser_Parse_loop_3 grow lcs b' x _p h fuel j' s =
+      backwardHashParser_Parse_loop_3 grow lcs b x _p h fuel j s := by subst hb hj; rfl
+
+theorem loop1_congrB (grow : Nat → Nat → Nat) (lcs : Slice → Slice → Int) (inputEnd : Int) (_p p : Slice) (mm : Int)
+    (fuel : Nat) {i i' : Int} (s : Gen.backwardHashParser) {blk blk' : Block'} {li li' : Int}
+    (hi : i' = i) (hblk : blk' = blk) (hli : li' = li) :
+    backwardHashParser_Parse_loop_1 grow lcs inputEnd _p p mm fuel i' s blk' li' =
+      backwardHashParser_Parse_loop_1 grow lcs inputEnd _p p mm fuel i s blk li := by subst hi hblk hli; rfl
+
+theorem seq_congrB {a b c : Int} {n1 n2 n3 : Nat} (ha : a = (n1 : Int)) (hb : b = (n2 : Int)) (hc : c = (n3 : Int)) :
+    ({ LitLen := UInt32.ofInt a, MatchLen := UInt32.ofInt b, Offset := UInt32.ofInt c, Aux := 0 } : Gen.Seq) =
+      seqRep { litLen := n1, matchLen := n2, offset := n3 } := by subst ha hb hc; rfl
+
+theorem blk_congrB (g : Nat → Nat → Nat) (sq : List Gen.Seq) (l : Slice) {S S' : Gen.Seq} {d d' : List UInt8}
+    (hS : S = S') (hd : d = d') :
+    ({ Sequences := sq ++ [S], Literals := Slice.append g l d } : Block') =
+      { Sequences := sq ++ [S'], Literals := Slice.append g l d' } := by subst hS hd; rfl
+
+theorem okpairB {α β : Type} {a c : α} {b d : β} (h1 : a = c) (h2 : b = d) : Res.ok (a, b) = Res.ok (c, d) := by
+  subst h1 h2; rfl
+
 set_option maxHeartbeats 1000000 in
 theorem loop1_stepB (grow : Nat → Nat → Nat) (lcs : Slice → Slice → Int) (hlcs : LcsSpec lcs)
     (inputEnd mm : Int) (A : List UInt8) (L E mmN ws : Nat)
@@ -222,14 +344,20 @@ theorem loop1_stepB (grow : Nat → Nat → Nat) (lcs : Slice → Slice → Int)
   have hpl : (A.take L).length = L := by rw [List.length_take]; omega
   have hs := c.small
   have hsmall : E + 7 < 4294967296 + 8 := hs
+  have hplen : (({ arr := A, len := E + 7 } : Slice).len : Int) = ((E + 7 : Nat) : Int) := rfl
   -- the load at i, the table access
-  obtain ⟨y, hy, hF⟩ := gen_load_ok { arr := A, len := E + 7 } c.swf ia i hia (by show i + 8 ≤ E + 7; omega)
+  obtain ⟨y, hy, hF⟩ := gen_load_okB { arr := A, len := E + 7 } c.swf i (by show i + 8 ≤ E + 7; omega)
   rw [hpd] at hy
   obtain ⟨hv, hlt⟩ := gen_hashValue_shift (y &&& s.hashDictionary.hash.mask) s.hashDictionary.hash.shift c.sh1 c.sh2
   have hidx : (Gen.hashValue (y &&& s.hashDictionary.hash.mask) s.hashDictionary.hash.shift).toNat <
       s.hashDictionary.hash.table.len := by rw [hv, ht.2]; exact hlt
-  rw [backwardHashParser_Parse_loop_1, if_pos (by omega), hF]
-  dsimp only
+  rw [backwardHashParser_Parse_loop_1]
+  bhp_ifc
+  rw [hF _ _ (by bhp_cond) (by bhp_cond)]
+  try dsimp only
+  -- `y & s.mask` / `s.mask & y`
+  have hand : s.hashDictionary.hash.mask &&& y = y &&& s.hashDictionary.hash.mask := UInt64.and_comm _ _
+  try simp only [hand]
   rw [gindex_ok _ _ (Int.ofNat _) _ rfl hidx, bind_ok, gset_ok _ (Int.ofNat _) _ rfl hidx, bind_ok]
   -- the model side of the table access
   have hget := ofHashT_get s.hashDictionary.hash s.hashDictionary.hash.table ht.1 _ hidx
@@ -255,16 +383,15 @@ theorem loop1_stepB (grow : Nat → Nat → Nat) (lcs : Slice → Slice → Int)
   rw [hv] at hget
   have hnf := hpProbeW_nfB ws mmN E (A.drop L) (ofHash s.hashDictionary.hash) (A.take L) i li (A.take (E + 7)) y hmem hy
     (y &&& s.hashDictionary.hash.mask) (by rw [c.mask]; rfl) (ofEntry ent) hget.symm (ofHashT s.hashDictionary.hash t1) hset
-  -- A: the stored value differs
-  by_cases hvA : (y &&& s.hashDictionary.hash.mask).toUInt32 ≠ ent.value
-  · have hA : lo32 (y &&& s.hashDictionary.hash.mask) ≠ (ofEntry ent).2 := by
-      intro hc; apply hvA; apply UInt32.toNat_inj.mp; rw [lo32_eq]; exact hc
+  -- A: the stored value differs (the model's test decides the generated one through `toNat`)
+  by_cases hA : lo32 (y &&& s.hashDictionary.hash.mask) ≠ (ofEntry ent).2
+  · have hA' : (y &&& s.hashDictionary.hash.mask).toUInt32.toNat ≠ ent.value.toNat := by rw [lo32_eq]; exact hA
     refine ⟨(ofHashT s.hashDictionary.hash t1, none), by rw [hnf, if_pos hA], t1, ht1, rfl, ?_,
       by intro st k o h; cases h⟩
-    rw [if_pos hvA]
-  have hA : ¬ lo32 (y &&& s.hashDictionary.hash.mask) ≠ (ofEntry ent).2 := by
-    intro hc; apply hc; rw [← lo32_eq, Decidable.not_not.mp hvA]; rfl
-  rw [if_neg hvA]
+    bhp_ifc
+  have hA' : (y &&& s.hashDictionary.hash.mask).toUInt32.toNat = ent.value.toNat := by
+    rw [lo32_eq]; exact Decidable.not_not.mp hA
+  bhp_ifc
   rw [if_neg hA] at hnf
   -- B: the candidate is outside the window
   have hj1 : (ofEntry ent).1 = ent.pos.toNat := rfl
@@ -273,34 +400,32 @@ theorem loop1_stepB (grow : Nat → Nat → Nat) (lcs : Slice → Slice → Int)
   by_cases hw : ¬ (j < i ∧ i - j ≤ ws)
   · refine ⟨(ofHashT s.hashDictionary.hash t1, none), by rw [hnf, if_pos hw], t1, ht1, rfl, ?_,
       by intro st k o h; cases h⟩
-    rw [if_pos (by show ¬ (0 < ia - (j : Int) ∧ ia - (j : Int) ≤ s.BHPConfig.WindowSize); omega)]
-  rw [if_neg (by show ¬ ¬ (0 < ia - (j : Int) ∧ ia - (j : Int) ≤ s.BHPConfig.WindowSize); omega)]
+    bhp_ifc
+  bhp_ifc
   rw [if_neg hw] at hnf
   have hw := Decidable.not_not.mp hw
   -- C: the first word of the candidate
-  obtain ⟨z, hz, hF2⟩ := gen_load_ok { arr := A, len := E + 7 } c.swf (Int.ofNat j) j rfl (by show j + 8 ≤ E + 7; omega)
+  obtain ⟨z, hz, hF2⟩ := gen_load_okB { arr := A, len := E + 7 } c.swf j (by show j + 8 ≤ E + 7; omega)
   rw [hpd] at hz
-  rw [hF2]
-  simp only [tz_shr]
+  rw [hF2 _ _ (by bhp_cond) (by bhp_cond)]
+  have hxc : y ^^^ z = z ^^^ y := UInt64.xor_comm _ _
+  simp only [tz_shr, hxc]
   have hml := matchLenInline_nf (A.take L) (A.drop L) (A.take (E + 7)) E mmN i j y z hmem hy hz
   rw [hpl] at hml
-  have hk8 : (if ((BytesW.tz64 (z ^^^ y) >>> 3 : Nat) : Int) > Int.ofNat L - ia then Int.ofNat L - ia
-      else ((BytesW.tz64 (z ^^^ y) >>> 3 : Nat) : Int)) =
-      (((if BytesW.tz64 (z ^^^ y) >>> 3 > L - i then L - i else BytesW.tz64 (z ^^^ y) >>> 3 : Nat)) : Int) := by
-    rw [hia]; show (if _ > (L : Int) - _ then (L : Int) - _ else _) = _
-    split <;> split <;> omega
-  rw [hk8]
-  have hk8le : (if BytesW.tz64 (z ^^^ y) >>> 3 > L - i then L - i else BytesW.tz64 (z ^^^ y) >>> 3) ≤ L - i := by
-    split <;> omega
-  generalize (if BytesW.tz64 (z ^^^ y) >>> 3 > L - i then L - i else BytesW.tz64 (z ^^^ y) >>> 3) = k8
-    at hml hk8le ⊢
+  generalize BytesW.tz64 (z ^^^ y) >>> 3 = tz at hml ⊢
+  have hk8 : (if tz > L - i then L - i else tz) = Min.min tz (L - i) := by split <;> omega
+  rw [hk8] at hml
+  -- `k = min(k, len(p)-i)` in whatever form the text computes it
+  bhp_val ((Min.min tz (L - i) : Nat) : Int)
+  have hk8le : Min.min tz (L - i) ≤ L - i := by omega
+  generalize Min.min tz (L - i) = k8 at hml hk8le ⊢
   by_cases hC1 : k8 < mmN
   · rw [if_pos hC1] at hml
     refine ⟨(ofHashT s.hashDictionary.hash t1, none), by rw [hnf, hml]; rfl, t1, ht1, rfl, ?_,
       by intro st k o h; cases h⟩
-    rw [if_pos (by omega)]
+    bhp_ifc
   rw [if_neg hC1] at hml
-  rw [if_neg (by omega)]
+  bhp_ifc
   -- the semantic content of the match length (bounds only)
   have hsem := BytesW.matchLenInline_eq (A.take L) (A.drop L) E mmN i j hw.1 hi (by rw [hpl]; exact hEL)
     (by rw [List.take_append_drop]; exact hEA)
@@ -323,86 +448,104 @@ theorem loop1_stepB (grow : Nat → Nat → Nat) (lcs : Slice → Slice → Int)
     -- the backward extension
     have hbe := ProbeW.backExtW_eq (A.take L) (A.drop L) i li j (by omega) (by rw [hpl]; omega)
     have hmle := backExt_le (A.take L) i li j
-    have hgb := gen_backExt lcs hlcs A L i li j ia lia (kk : Int) hia hlia hw.1 (by omega) hLA hli
-    generalize backExt (A.take L) i li j = m at hbe hmle hgb
-    -- the re-indexing loop
-    obtain ⟨jj, t2, ht2, hr3, hl3⟩ := loop3_eqB grow lcs
-      (if ((i - m : Nat) : Int) + ((kk : Int) + (m : Int)) > inputEnd then inputEnd
-        else ((i - m : Nat) : Int) + ((kk : Int) + (m : Int))) (y &&& s.hashDictionary.hash.mask)
+    have hlcsB : i > li → _ := fun hb => lcs_backExtB lcs hlcs A L i li j hb hw.1 (by omega)
+    have hm0 : ¬ i > li → backExt (A.take L) i li j = 0 := by intro hb; unfold backExt; rw [if_neg hb]
+    generalize backExt (A.take L) i li j = m at hbe hmle hlcsB hm0
+    -- the re-indexing loop, for the canonical spelling of its bounds
+    obtain ⟨jj, t2, ht2, hr3, hl3⟩ := loop3_eqB grow lcs ((Min.min (i - m + (kk + m)) E : Nat) : Int)
+      (y &&& s.hashDictionary.hash.mask)
       { arr := A, len := E + 7 } (Gen.hashValue (y &&& s.hashDictionary.hash.mask) s.hashDictionary.hash.shift)
-      (Min.min (i - m + (kk + m)) E - (i - m + 1)) fuel (i - m + 1) (((i - m : Nat) : Int) + 1) (setTB s t1) (by omega)
-      (by rw [hE]; split <;> omega) (by omega)
+      (Min.min (i - m + (kk + m)) E - (i - m + 1)) fuel (i - m + 1) ((i - m + 1 : Nat) : Int) (setTB s t1) rfl
+      (by omega) (by omega)
       (by show _ ∨ _ ≤ E + 7; omega) c ht1
     rw [hpd] at hr3
     have hr3' : ProbeW.insertRangeW (ofHashT s.hashDictionary.hash t1) (List.take (E + 7) A) (i - m + 1)
         (Min.min (i - m + (kk + m)) E - (i - m + 1)) = some (ofHashT s.hashDictionary.hash t2) := hr3
-    have hl3' : backwardHashParser_Parse_loop_3 grow lcs
-        (if ((i - m : Nat) : Int) + ((kk : Int) + (m : Int)) > inputEnd then inputEnd
-          else ((i - m : Nat) : Int) + ((kk : Int) + (m : Int)))
-        (y &&& s.hashDictionary.hash.mask) { arr := A, len := E + 7 }
-        (Gen.hashValue (y &&& s.hashDictionary.hash.mask) s.hashDictionary.hash.shift) fuel (((i - m : Nat) : Int) + 1)
-        (setTB s t1) = Res.ok (jj, setTB s t2) := hl3
     refine ⟨(ofHashT s.hashDictionary.hash t2, some (i - m, kk + m, i - j)), ?_, t2, ht2, rfl, ?_, ?_⟩
     · rw [hnf, hml, Option.bind_some]
-      dsimp only
+      try dsimp only
       rw [hbe, Option.bind_some, hr3']; rfl
-    · refine bind_trans (v := (kk : Int)) ?_ ?_
+    · try dsimp only
+      refine bind_trans (v := (kk : Int)) ?_ ?_
       · -- the match extension
         by_cases h8 : k8 = 8
         · subst h8
-          rw [if_pos (by omega)]
+          bhp_ifc
           have hme' := hme
           unfold BytesW.matchExt at hme'
           rw [if_pos rfl, BytesW.sliceFrom_eq_some _ _ (by rw [hpl]; omega),
             BytesW.sliceFrom_eq_some _ _ (by rw [hpl]; omega)] at hme'
           simp only [Option.bind_eq_bind, Option.bind_some] at hme'
-          refine bind_trans (slice_okI _ (Int.ofNat j + 8) (Int.ofNat L) (j + 8) L (by show (j : Int) + 8 = _; omega) rfl
-            (by omega) hLA) ?_
-          refine bind_trans (slice_okI _ (ia + 8) (Int.ofNat L) (i + 8) L (by omega) rfl (by omega) hLA) ?_
+          -- `r := p[j+8:]`, `q := p[i+8:]` in either order
+          first
+            | (refine bind_trans (slice_okB _ (j + 8) L (by bhp_cond) (by bhp_cond) (by omega) hLA) ?_
+               refine bind_trans (slice_okB _ (i + 8) L (by bhp_cond) (by bhp_cond) (by omega) hLA) ?_)
+            | (refine bind_trans (slice_okB _ (i + 8) L (by bhp_cond) (by bhp_cond) (by omega) hLA) ?_
+               refine bind_trans (slice_okB _ (j + 8) L (by bhp_cond) (by bhp_cond) (by omega) hLA) ?_)
           obtain ⟨e, kN', r', q', hl2, hr', hq', hdisj⟩ := loop2_eqB grow lcs (y &&& s.hashDictionary.hash.mask) (L - i) fuel 8
             ((8 : Nat) : Int) { arr := A.drop (j + 8), len := L - (j + 8) } { arr := A.drop (i + 8), len := L - (i + 8) }
             (by show L - (i + 8) < 8 * (L - i); omega) (by omega) rfl (swf_drop _ _ _ hLA) (swf_drop _ _ _ hLA)
             (by show L - (i + 8) ≤ L - (j + 8); omega)
           refine bind_trans hl2 ?_
-          dsimp only
+          try dsimp only
           rw [data_drop, data_drop, hme'] at hdisj
           rcases hdisj with ⟨he, hm⟩ | ⟨he, hm⟩
-          · rw [if_pos he]
+          · bhp_ifc
             injection hm with hm
             rw [hm]
-          · rw [if_neg he]
+          · bhp_ifc
             injection hm with hm
             by_cases hq0 : q'.len > 0
-            · rw [if_pos (by show (q'.len : Int) > 0; omega), gen_getLE64 r' hr', bind_ok, gen_getLE64 q' hq', bind_ok,
-                bind_ok]
-              skip
-              have htv := tail_val r'.data q'.data kN' (by rw [data_length hq']; exact hq0)
+            · bhp_ifc
+              have hxc' : BytesW.getLE64 q'.data ^^^ BytesW.getLE64 r'.data =
+                  BytesW.getLE64 r'.data ^^^ BytesW.getLE64 q'.data := UInt64.xor_comm _ _
+              simp only [gen_getLE64 r' hr', gen_getLE64 q' hq', bind_ok, tz_shr, hxc']
+              have htv := tail_valB r'.data q'.data kN' (by rw [data_length hq']; exact hq0)
               rw [data_length hq'] at htv
-              rw [hm]
-              exact congrArg Res.ok htv
-            · rw [if_neg (by show ¬ (q'.len : Int) > 0; omega), bind_ok]
+              generalize BytesW.tz64 (BytesW.getLE64 r'.data ^^^ BytesW.getLE64 q'.data) >>> 3 = tzb at htv ⊢
+              bhp_val ((Min.min tzb q'.len : Nat) : Int)
+              rw [hm, htv]
+              exact congrArg Res.ok (by omega)
+            · bhp_ifc
+              rw [bind_ok]
               unfold BytesW.matchExtTail at hm
               rw [if_neg (by rw [data_length hq']; exact hq0)] at hm
               rw [hm]
-        · rw [if_neg (by omega)]
+        · bhp_ifc
           unfold BytesW.matchExt at hme
           rw [if_neg h8] at hme
           injection hme with hme
           rw [hme]
-      · dsimp only
-        refine bind_trans hgb ?_
-        dsimp only
-        refine bind_trans (slice_okI _ lia ((i - m : Nat) : Int) li (i - m) hlia rfl (by omega)
-          (by show i - m ≤ A.length; omega)) ?_
-        dsimp only
-        refine bind_trans hl3' ?_
-        dsimp only
-        have e1 : ((i - m : Nat) : Int) + ((kk : Int) + (m : Int)) - 1 + 1 = ((i - m + (kk + m) : Nat) : Int) := by omega
-        have e2 : ((i - m : Nat) : Int) + ((kk : Int) + (m : Int)) = ((i - m + (kk + m) : Nat) : Int) := by omega
-        have e3 : ia - Int.ofNat j = ((i - j : Nat) : Int) := by show ia - (j : Int) = _; omega
-        have e4 : (kk : Int) + (m : Int) = ((kk + m : Nat) : Int) := by omega
-        rw [e1, e2, e3, e4]
-        rfl
+      · try dsimp only
+        -- `if back := i - litIndex; back > 0 { if back > j { back = j }; m := lcs(p[j-back:j], p[:i]); i -= m; k += m }`
+        -- The block is evaluated in both cases of the model's test; the join tuple is consumed by the continuation,
+        -- so its component order does not matter.  After that both cases continue with the same text.
+        by_cases hb : i > li
+        case' pos =>
+          bhp_ifc
+          bhp_val ((Min.min (i - li) j : Nat) : Int)
+          rw [slice_okB _ (j - Min.min (i - li) j) j (by bhp_cond) (by bhp_cond) (by omega)
+            (by show j ≤ A.length; omega), bind_ok]
+          try dsimp only
+          rw [slice_okB _ 0 i (by bhp_cond) (by bhp_cond) (Nat.zero_le _) (by show i ≤ A.length; omega), bind_ok]
+          try dsimp only
+          rw [hlcsB hb, bind_ok]
+        case' neg =>
+          bhp_ifc
+          rw [bind_ok]
+          have hm00 := hm0 hb
+        all_goals
+          try dsimp only
+          refine bind_trans (slice_okB _ li (i - m) (by bhp_cond) (by bhp_cond) (by omega)
+            (by show i - m ≤ A.length; omega)) ?_
+          try dsimp only
+          -- `b := min(litIndex, inputEnd)`
+          bhp_val ((Min.min (i - m + (kk + m)) E : Nat) : Int)
+          refine bind_trans ((loop3_congrB grow lcs _ _ _ _ _ (by bhp_cond) (by bhp_cond)).trans hl3) ?_
+          try dsimp only
+          exact loop1_congrB grow lcs _ _ _ _ _ _ (by bhp_cond)
+            (blk_congrB grow _ _ (seq_congrB (by bhp_cond) (by bhp_cond) (by bhp_cond)) (by first | rfl | (congr 1; bhp_cond)))
+            (by bhp_cond)
     · intro st k o h
       cases h
       exact ⟨by omega, by omega, by omega, by omega⟩
@@ -437,7 +580,9 @@ theorem loop1_eqB (grow : Nat → Nat → Nat) (lcs : Slice → Slice → Int) (
     obtain ⟨f, rfl⟩ : ∃ f, fuel = f + 1 := ⟨fuel - 1, by omega⟩
     refine ⟨_, s.hashDictionary.hash.table, blk, ProbeW.greedyLoopW_done _ _ _ _ (by show ¬ i < E; omega), ?_,
       ht, rfl, hsq, hlt, hswf, Nat.le_refl _, by show li ≤ L; omega⟩
-    rw [backwardHashParser_Parse_loop_1, if_neg (by omega), hia, hlia]
+    rw [backwardHashParser_Parse_loop_1]
+    bhp_ifc
+    rw [hia, hlia]
   | succ n ih =>
     intro fuel i li ia lia s blk sq lt hn hiL hli hia hlia hfuel c ht hws hsq hlt hswf
     by_cases hi : i < E
@@ -477,7 +622,9 @@ theorem loop1_eqB (grow : Nat → Nat → Nat) (lcs : Slice → Slice → Int) (
     · obtain ⟨f, rfl⟩ : ∃ f, fuel = f + 1 := ⟨fuel - 1, by omega⟩
       refine ⟨_, s.hashDictionary.hash.table, blk, ProbeW.greedyLoopW_done _ _ _ _ hi, ?_,
         ht, rfl, hsq, hlt, hswf, Nat.le_refl _, by show li ≤ L; omega⟩
-      rw [backwardHashParser_Parse_loop_1, if_neg (by omega), hia, hlia]
+      rw [backwardHashParser_Parse_loop_1]
+      bhp_ifc
+      rw [hia, hlia]
 
 end LZ.GenBHPParse
 
